@@ -54,9 +54,9 @@ theorem propTick_pinv (n : Net) {st : HState} {m : DMon} {lt : Option Nat} {now 
           · exact Or.inl h1
           · exact Or.inr (by rw [hx.2] at h1; exact h1))
   · simp only [propTick, if_true, drun_append]
-    obtain ⟨okb, fp⟩ := propFetch_post n ⟨store, false, fc, fn, false⟩ m (n.epoch t0) r1
-    have hx := dstep_exec .prop n t0 clock (st := (propFetch ⟨store, false, fc, fn, false⟩ (n.epoch t0) r1).1)
-      (m := drun .prop n m (propFetch ⟨store, false, fc, fn, false⟩ (n.epoch t0) r1).2)
+    obtain ⟨okb, fp⟩ := propFetch_post n ⟨store, r1.failed, fc, fn, false⟩ m (n.epoch t0) r1
+    have hx := dstep_exec .prop n t0 clock (st := (propFetch ⟨store, r1.failed, fc, fn, false⟩ (n.epoch t0) r1).1)
+      (m := drun .prop n m (propFetch ⟨store, r1.failed, fc, fn, false⟩ (n.epoch t0) r1).2)
       (by rw [fp.okeq]; exact h.ok) (fun _ => fp.covp)
     simp only [execOf] at hx
     exact fin _ _ hx.1 (fp.covp.of_due_eq hx.2) (fun K A hA => by rw [hx.2] at hA; exact fp.keys K A hA)
